@@ -486,6 +486,15 @@ def run(only=None):
                     s.violation("second_encode_differs_after_caller_wrote_first_result", {**case, "len_again": len(again)},
                                 "encoding the same message again gives other bits once the caller has modified the first result")
                 again.invert()
+                # the same bit strings stored little-endian (a bit string is its index order)
+                if BPTC19696.encode(bitarray(m, endian="little")).to01() != snap:
+                    s.violation("little_endian_message_encodes_differently", case)
+                for flips in ((), (17,), (5, 150)):
+                    rx_l = bitarray(snap, endian="little")
+                    for i in flips:
+                        rx_l.invert(i)
+                    if BPTC19696.deinterleave_data_bits(rx_l, True).to01() != m:
+                        s.violation("little_endian_block_decodes_differently", {**case, "flipped": list(flips)})
                 for flips in ((), (17,)):
                     rx = bitarray(snap)
                     for i in flips:
